@@ -12,7 +12,7 @@ import impl
 import scancorr
 
 PROP_FILES = ["theories/Props/C10.v", "theories/Inst/C10_inst.v"]
-DEPS = ["theories/Proofs/C10_proofs.vo", "theories/Engine/LocTrace.vo", "theories/Plugins/All.vo", "theories/Gen/Locations.vo",
+DEPS = ["theories/Proofs/C10_proofs.vo", "theories/Proofs/All_shift.vo", "theories/Engine/LocTrace.vo", "theories/Plugins/All.vo", "theories/Gen/Locations.vo",
         "theories/Gen/Registry.vo", "theories/Gen/Regexes.vo", "theories/Gen/Blacklists.vo", "theories/Gen/Constants.vo"]
 
 # ---------------------------------------------------------------- programs
@@ -207,6 +207,9 @@ def insertion_points(src, rng, count):
     return out
 
 
+NODE_CLASSES = {n for n in dir(ast) if isinstance(getattr(ast, n), type) and issubclass(getattr(ast, n), ast.AST)} | {"File", "Str", "Bytes"}
+
+
 def tested_classes():
     mgr = impl.make_manager()
     cls = set()
@@ -331,8 +334,13 @@ def run(R, replay=None):
     SH = 25
     for s in range(0, len(shift_cases), SH):
         chunk = shift_cases[s:s + SH]
-        body = core.CASE_HDR + "From Bandit Require Import Engine.Shift Engine.LocTrace Engine.Tester.\n"
-        body += "Definition tested := %s.\n" % tested_coq
+        body = core.CASE_HDR + ("From Bandit Require Import Engine.Shift Engine.LocTrace Engine.Tester Gen.Constants Gen.Blacklists Gen.Registry "
+                                "Plugins.All Proofs.All_shift.\n")
+        # the classes the real test set registers checks for, as the insertion theorem defines them; cross-checked
+        # against the implementation's own table
+        body += "Definition tested := tested_of (build_tests registry all_plugins defaults [] (fun _ => true) blacklist).\n"
+        body += "Eval vm_compute in (forallb (fun c => Bool.eqb (tested c) (%s c)) %s).\n" % (
+            tested_coq, L.lst([L.cstring(c) for c in sorted(set(tested) | NODE_CLASSES)], "string"))
         body += ("Definition nosec_eqb (a b : nosec_map) := list_eqb (fun x y => Z.eqb (fst x) (fst y) && list_eqb pstr_eqb (snd x) (snd y)) a b.\n"
                  "Definition chk (x : Z * list pstr * node * node * nosec_map * nosec_map) : bool * bool * bool :=\n"
                  "  match x with (at_, ins, t, t', m, m') =>\n"
@@ -345,6 +353,9 @@ def run(R, replay=None):
         if rc != 0:
             R.broken.append({"what": "model evaluation failed (%s)" % name, "log": (out + err)[-1500:]})
             continue
+        if "= true" not in out.split(": bool")[0]:
+            R.broken.append({"what": "correspondence: the node classes with a registered check differ between the model's test set and the implementation's", "log": out[:300]})
+        out = out.split(": bool", 1)[-1]
         vals = [int(v) for v in re.findall(r"\b([0-7])\b", out.split("=", 1)[-1].split(":")[0])]
         if len(vals) != len(shift_cases[s:s + SH]):
             R.broken.append({"what": "unparsable model output (%s)" % name, "log": out[-600:]})
